@@ -667,6 +667,102 @@ class History:
         self.h.close()
 
 
+def overlapping_server_disconnects(ctx, k):
+    """The server ends two (or all) namespaces back to back while the
+    application's disconnect handler of the first is still running
+    (python-engineio dispatches every incoming message on its own thread /
+    task).  Afterwards the client's view is exact: the ended namespaces are
+    gone, each disconnect handler ran once, and if none is left the client is
+    disconnected for good - transport closed, no reconnection."""
+    rng = ctx.case_rng(12 * 10 ** 7 + k)
+    kind = 'sync' if k % 2 == 0 else 'async'
+    nss = rng.choice([['/a', '/b'], ['/', '/a'], ['/', '/a', '/b']])
+    ended = rng.sample(nss, 2) if rng.random() < 0.5 else list(nss)
+    rng.shuffle(ended)
+    h = E.make_client(kind, client_kw={
+        'reconnection': True, 'reconnection_delay': 0.1,
+        'reconnection_delay_max': 0.2, 'randomization_factor': 0,
+        'reconnection_attempts': 2})
+    events = []
+    slow = ended[0]
+    try:
+        def mk(ns):
+            if h.is_async:
+                async def on_disconnect(reason=None):
+                    events.append(('disconnect', ns, reason))
+                    if ns == slow:
+                        await asyncio.sleep(0.5)
+                    events.append(('disconnect_done', ns))
+            else:
+                def on_disconnect(reason=None):
+                    events.append(('disconnect', ns, reason))
+                    if ns == slow:
+                        h.pump()    # the other message threads run meanwhile
+                    events.append(('disconnect_done', ns))
+            return on_disconnect
+        for ns in nss:
+            h.c.on('disconnect', mk(ns), namespace=ns)
+        h.api('connect', 'http://h', namespaces=list(nss), wait=True)
+        n_att = len(h.attempts)
+        for ns in ended:
+            h.deliver(R.DISCONNECT, ns)
+        h.pump()
+        left = [ns for ns in nss if ns not in ended]
+        c = h.c
+        w = {'part': 'overlapping_server_disconnects', 'case_index': k,
+             'kind': kind, 'namespaces': nss, 'ended_in_order': ended,
+             'events': [list(e) for e in events],
+             'client_namespaces': sorted(c.namespaces),
+             'connected': bool(c.connected), 'eio_state': h.eio.state,
+             'attempts': len(h.attempts) - n_att,
+             'errors': h.all_errors()[:3]}
+        ctx.count('overlapping_server_disconnects')
+        handled = sorted(e[1] for e in events if e[0] == 'disconnect')
+        if h.all_errors():
+            ctx.violation(None, 'overlapping server DISCONNECTs: error '
+                          'escaped (%s)' % h.all_errors()[0]['exc'], w)
+            return
+        if handled != sorted(ended) or sorted(c.namespaces) != sorted(left) \
+                or bool(c.connected) != bool(left) or \
+                any(c.get_sid(ns) for ns in ended):
+            ctx.violation(None, 'the server ended %r back to back (first '
+                          'disconnect handler still running): handlers ran '
+                          'for %r, client lists %r, connected=%r' % (
+                              ended, handled, sorted(c.namespaces),
+                              bool(c.connected)), w)
+            return
+        if not left:
+            if h.eio.state != 'disconnected':
+                ctx.violation(None, 'every namespace was ended by the server '
+                              'but the transport is still %r' % h.eio.state,
+                              w)
+                return
+            # an intentional end: a (late) transport failure must not start
+            # a reconnection
+            h.lose()
+            if len(h.attempts) != n_att:
+                ctx.violation(None, 'client reconnected after the server had '
+                              'ended all its namespaces', w)
+                return
+        else:
+            for ns in ended:
+                try:
+                    h.api('emit', 'x', {'a': 1}, namespace=ns)
+                except Exception as e:
+                    if type(e).__name__ != 'BadNamespaceError':
+                        ctx.violation(None, 'emit on an ended namespace '
+                                      'raised %r' % e, w)
+                        return
+                else:
+                    ctx.violation(None, 'emit on a namespace the server '
+                                  'ended did not raise BadNamespaceError', w)
+                    return
+        ctx.case(('overlapping_server_disconnects', kind, len(nss),
+                  len(ended)), w)
+    finally:
+        h.close()
+
+
 def slow_connect_handler(ctx, k):
     """connect(wait=True) succeeds when the server has accepted every
     namespace - also when the application's connect handler of the last one
@@ -747,6 +843,8 @@ def slow_connect_handler(ctx, k):
 def run_case(ctx, k):
     if k % 40 == 7 or k % 40 == 8:
         return slow_connect_handler(ctx, k)
+    if k % 40 in (17, 18, 27, 28):
+        return overlapping_server_disconnects(ctx, k)
     rng = ctx.case_rng(k)
     h = History(ctx, rng, 'sync' if k % 2 == 0 else 'async', k)
     try:
@@ -782,6 +880,7 @@ def run(ctx):
     ctx.require('partial_binary_then_end', 5)
     ctx.require('connects_with_eager_read_loop', 20)
     ctx.require('slow_connect_handler_scenarios', 4)
+    ctx.require('overlapping_server_disconnects', 8)
     k = 0
     while not ctx.out_of_time() and not ctx.too_many_violations():
         run_case(ctx, k)
@@ -790,6 +889,9 @@ def run(ctx):
 
 
 def replay(ctx, w):
+    if w['witness'].get('part') == 'overlapping_server_disconnects':
+        return overlapping_server_disconnects(ctx,
+                                              w['witness']['case_index'])
     if w['witness'].get('part') == 'slow_connect_handler':
         return slow_connect_handler(ctx, w['witness']['case_index'])
     run_case(ctx, w['witness']['case_index'])
